@@ -335,6 +335,10 @@ def run(chk, tier, scale=1.0):
     prun.fold(chk, "C09", old_bg.results())
     prun.fold(chk, "C09", hres)
     chk.count("lockstep_histories", len(hres))
+    # the module interface no shipped module uses (set address / host name / user name, challenge, kill, accept, holds ...), driven
+    # through the fixture module site_api and compared line for line with a model of the core (lib/sitemodel.py)
+    import sitemodel
+    sitemodel.fold_site(chk, "C09", tier, scale, 1031, ('C09',))
     chk.rule = ("batch histories (12-30 clients, ids up to 2^31-1) on the UNHOOKED channel: announced addresses cover the 256 zero/non-zero group patterns with 1-4 digit groups in "
                 "compressed / uncompressed / upper-case / exploded spellings, IPv4, mapped and compatible forms, ports 0/1/65535/random; replies to predicted tags so that "
                 "soft-done, challenges, +x and all three verdicts occur; events that make the daemon log (bad info requests, junk, reload of a broken / unparsable-typed / missing "
@@ -352,6 +356,9 @@ def run(chk, tier, scale=1.0):
 
 
 def replay(chk, rep):
+    if rep["witness"].get("site"):
+        import sitemodel
+        return sitemodel.replay_site(chk, rep["witness"], "C09", ('C09',))
     if "events" in rep["witness"]:
         return prun.replay_witness(chk, rep, PROPS)
     b = prun.build_daemon("c09-replay")
